@@ -104,6 +104,7 @@ func specs() map[string]propSpec {
 	}
 	oDec := o
 	oDec.Decimal = 100
+	oC01 := o // (a closure captures the VARIABLE o, which is reassigned below: every generator closure gets its own copy)
 	m["C01"] = propSpec{opts: o, gen: func(r *Rng) Case {
 		if r.Bool(25) {
 			// sizes like 33.3 and 100.1: coordinates are rounded sums, and a loop that waits for an exact equality may spin
@@ -111,7 +112,7 @@ func specs() map[string]propSpec {
 			c.Kind += "+decimal"
 			return c
 		}
-		return genCase(r, o)
+		return genCase(r, oC01)
 	}, corpus: scaleCorpus, oracle: layoutThen(oracleC01), rule: "random multigraphs up to 14 nodes per part (cycles, parallel and antiparallel edges, self-loops, several components) x every production algorithm x both orderings x size options x thoroughness; a corpus of large structured inputs first; watchdog: 20 s and 4 GiB per call, confirmed in a child process; spline routing in child processes under a 4 s limit (coverage.spline_routing)"}
 
 	o = full
@@ -149,12 +150,13 @@ func specs() map[string]propSpec {
 	o.P4 = []string{"sink", "valign", "packright", "bk"}
 	oBig := o
 	oBig.MaxN, oBig.Kinds, oBig.MultiComp = 20, []string{"dag", "multidag", "slack", "layered", "longdag"}, false
+	oC08 := o
 	m["C08"] = propSpec{opts: o, gen: func(r *Rng) Case {
 		if r.Bool(35) {
 			// larger DAGs with several sources: ties (equal slack, equal medians) that an ordering by name would break
 			return genCase(r, oBig)
 		}
-		return genCase(r, o)
+		return genCase(r, oC08)
 	}, oracle: func(c Case, r *Rng) []string {
 		out, err := runLayout(c)
 		if err != nil {
@@ -170,6 +172,7 @@ func specs() map[string]propSpec {
 
 	o = full
 	o.P4 = []string{"sink", "valign", "packright", "bk", "bk0", "bk2", "ns"}
+	oC09 := o
 	m["C09"] = propSpec{opts: o, gen: func(r *Rng) Case {
 		if r.Bool(12) {
 			// a component whose network-simplex budget binds (thoroughness 1, dense, 14-22 nodes) next to a chain that
@@ -197,7 +200,7 @@ func specs() map[string]propSpec {
 			return c
 		}
 		for {
-			c := genCase(r, o)
+			c := genCase(r, oC09)
 			if _, k := inputComponents(c); k >= 2 {
 				return c
 			}
@@ -215,7 +218,18 @@ func specs() map[string]propSpec {
 	}, rule: "random multigraphs up to 9 nodes per part x both breakers x network simplex; optimum by branch and bound"}
 
 	o.P2 = []string{"lp"}
-	m["C11"] = propSpec{opts: o, gen: baseGen(o), oracle: layoutThen(oracleC11), rule: "random multigraphs x both breakers x longest-path layering"}
+	oC11 := o
+	oDeep := o
+	oDeep.MaxN, oDeep.Kinds, oDeep.MultiComp, oDeep.SelfLoops = 48, []string{"longdag", "longdag", "layered", "dag", "cyclic"}, false, false
+	m["C11"] = propSpec{opts: o, gen: func(r *Rng) Case {
+		if r.Bool(15) {
+			// paths of 17 and more nodes: the depth of the walk matters to an iterative or memoising implementation (seeded C11-6)
+			c := genCase(r, oDeep)
+			c.Kind += "+deep"
+			return c
+		}
+		return genCase(r, oC11)
+	}, oracle: layoutThen(oracleC11), rule: "random multigraphs x both breakers x longest-path layering; 15% with up to 48 nodes per part (long paths)"}
 
 	o = GenOpts{MaxN: 10, Kinds: []string{"dag", "longdag", "cyclic", "dense", "layered", "outtree", "cycle", "dag", "longdag", "cyclic", "dense", "layered", "deep"}, MultiComp: true, Simple: true,
 		P1: allP1, P2: allP2, P4: sizeAwareP4, P5: []string{"polyline"}, SizeModes: allSizeModes, VirtualOut: []bool{false, true}, SpacingsPos: true}
@@ -317,7 +331,7 @@ func runProbe(prop string, seed uint64, n int, outPath string, maxViol int) int 
 	res := Result{Property: prop, Seed: seed, Rule: sp.rule, Dist: map[string]int{}}
 	seen := map[string]bool{}
 	var fixed []Case
-	if sp.corpus != nil {
+	if sp.corpus != nil && os.Getenv("VH_NOCORPUS") == "" { // the shards of a parallel search: only the first runs the corpus
 		fixed = sp.corpus()
 	}
 	for i := 0; i < n+len(fixed); i++ {
